@@ -367,6 +367,9 @@ func GetHTTPRequest(ctx *core.Context, r *http.Request) (map[string]interface{},
 				return nil, err
 			}
 
+			if len(js) == 0 {
+				return nil, errors.New("empty body")
+			}
 			if js[0] == '{' {
 				// If the body looks like JSON, treat it as JSON.
 				if err = json.Unmarshal(js, &m); err != nil {
